@@ -432,6 +432,12 @@ def runMS (H : Bytes → Bytes) : MStore → List (List Name × DBlock) → Opti
 /-- The disk after the first `k` atomic writes of a commit (a crash right after the `k`-th). -/
 def crashDisk (d : Disk) (ws : List DWrite) (k : Nat) : Disk := (ws.take k).foldl Disk.apply d
 
+/-- One substore inside `RollbackVersion`: `loadCommitStoreFromParams(key, id)` then `Rollback(height)`. -/
+def rollbackStore (db : NDB) (ver height : Int) (n : Name) : Option (Name × MTree) :=
+  match loadStore db ver with
+  | none => none
+  | some t => (loadVersionForOverwriting t height).map fun r => (n, r.1)
+
 /-- `rootmulti.Store.RollbackVersion(height)` on a freshly mounted store: every substore is loaded
 at the version recorded in the *latest* commit info, rolled back with `LoadVersionForOverwriting
 (height)` (its own atomic batch), then one batch sets `s/latest := height` and deletes the commit
@@ -443,10 +449,7 @@ def rollbackMS (d : Disk) (names : List Name) (height : Int) : Option MStore :=
     match aget ver d.cinfos with
     | none => none
     | some ci =>
-      match names.mapM (fun n =>
-        match loadStore (d.storeDB n) (ci.verOf n) with
-        | none => none
-        | some t => (loadVersionForOverwriting t height).map fun r => (n, r.1)) with
+      match names.mapM (fun n => rollbackStore (d.storeDB n) (ci.verOf n) height n) with
       | none => none
       | some stores =>
         some ⟨{}, stores, d.cinfos.filter (fun e => !(decide (height + 1 ≤ e.1) && decide (e.1 ≤ ver))), some height⟩
